@@ -135,3 +135,163 @@ LEMMAS = [COMBI_IE]
 ASSUMPTIONS = ["get_subtraction_value / get_point_coord_for_each_dim / rebalancing are outside the verified subset (list comprehensions over symbolic ranges, "
                "object graphs): covered by layer B only",
                "preconditions of modify_according_to_levelvec are taken from its call sites (0<=m, lmin[d]<=l<=lmax[d], max_level>=1)"]
+
+
+# --------------------------------------------------------------------------- the 1-D point sets of a component grid: get_point_coord_for_each_dim
+from pyvc.values import ObjSeq  # noqa: E402
+
+R = z3.RealSort()
+SUBV = z3.Function("SubtractionValue", I, I, I, I)      # (dimension, interval index, component level in that dimension) -> levels to subtract
+
+
+def zmax(a, b):
+    return z3.If(a >= b, a, b)
+
+
+class GetMaxCoarsening(Contract):
+    file, qualname = "sparseSpACE/RefinementContainer.py", "MetaRefinementContainer.get_max_coarsening"
+    trusted = True
+    note = "largest coarsening level of the dimension (an integer; only handed on to get_subtraction_value)"
+
+    def inputs(self, S):
+        return {"self": Obj("MetaRefinementContainer", {}), "d": S.int("d")}
+
+    def result(self, S, env):
+        return S.int("max_coarsening")
+
+
+class GetSubtractionValue(Contract):
+    file, qualname = FILE, "SpatiallyAdaptiveSingleDimensions2.get_subtraction_value"
+    trusted = True
+    note = ("A-SUB: for the refinement structure at hand the subtraction value is a function of (dimension, interval index, component level in that dimension) "
+            "-- its dependence on the own level only is what the relational contract of modify_according_to_levelvec proves for its last step; the rest of "
+            "get_subtraction_value (object graph walks) is layer B")
+
+    def inputs(self, S):
+        return {"self": Obj("SpatiallyAdaptiveSingleDimensions2", {}), "refineObj": None, "refineContainer": None, "i": S.int("i"), "max_coarsenings": None, "d": S.int("d"),
+                "levelvec": Seq("list", [S.int("lv0")])}
+
+    def result(self, S, env):
+        from pyvc import values as Vv
+        lv = env["levelvec"]
+        d = env["d"]
+        l = lv.items[d] if (lv.concrete and isinstance(d, int)) else z3.Select(lv.to_symbolic().arr, Vv.to_z3(d))
+        return SUBV(Vv.to_z3(d), Vv.to_z3(env["i"]), Vv.to_z3(l))
+
+
+def dim_container(S, c):
+    n = S.int("n%d" % c)
+    S.assume(n >= 1)
+    objs = ObjSeq("RefinementObjectSingleDimension", n, dict(start=S.array("start%d" % c, I, R), end=S.array("end%d" % c, I, R),
+                                                             levels=[S.array("l0_%d" % c, I, I), S.array("l1_%d" % c, I, I)],
+                                                             coarsening_level=S.array("coarsening%d" % c, I, I)))
+    return Obj("RefinementContainer", dict(refinementObjects=objs))
+
+
+def tiling_pre(cont, tag):
+    o = cont.fields["refinementObjects"]
+    n = o.length
+    st, en = o.fields["start"], o.fields["end"]
+    l0, l1 = o.fields["levels"]
+    i = z3.Int("ti")
+    return [(tag + "intervals-tile-in-ascending-order", z3.ForAll([i], z3.Implies(z3.And(i >= 0, i < n), z3.And(z3.Select(st, i) < z3.Select(en, i),
+                                                                                                          z3.Implies(i < n - 1, z3.And(z3.Select(en, i) == z3.Select(st, i + 1),
+                                                                                                                                      z3.Select(l1, i) == z3.Select(l0, i + 1))))),
+                                                                   patterns=[z3.Select(en, i)])),
+            (tag + "end-points-have-level-0", z3.And(z3.Select(l0, 0) == 0, z3.Select(l1, n - 1) == 0))]
+
+
+def included(o, d, i, l_d):
+    """the inclusion test of the real code: the right end of interval i belongs to the 1-D set of component level l_d"""
+    l1 = o.fields["levels"][1]
+    return z3.Select(l1, i) <= zmax(l_d - SUBV(d, i, l_d), 1)
+
+
+class PointCoords(Contract):
+    """get_point_coord_for_each_dim for a fixed number of dimensions (1, 2), any container sizes: every returned 1-D list is strictly ascending, starts
+    at the left end of the first interval and ends at the right end of the last one (the domain end points), and consists exactly of the left domain
+    end plus the right ends of the intervals that pass the level test -- so it is determined by (dimension, component level in that dimension) and the
+    refinement structure alone.  The children bookkeeping (NodeInfo lists) is sliced away: it does not write the point lists."""
+    file, qualname = FILE, "SpatiallyAdaptiveSingleDimensions2.get_point_coord_for_each_dim"
+    inline = ("MetaRefinementContainer.get_refinement_container_for_dim", "get_refinement_container_for_dim", "RefinementContainer.get_objects", "get_objects")
+    slice_out = ("children_indices", "children_indices_dim")
+
+    def __init__(self, dim):
+        self.dim = dim
+        self.label = "SpatiallyAdaptiveSingleDimensions2.get_point_coord_for_each_dim[dims=%d]" % dim
+
+    def inputs(self, S):
+        conts = [dim_container(S, c) for c in range(self.dim)]
+        meta = Obj("MetaRefinementContainer", dict(refinementContainers=Seq("list", conts)))
+        slf = Obj("SpatiallyAdaptiveSingleDimensions2", dict(dim=self.dim, refinement=meta, use_local_children=True, force_balanced_refinement_tree=False))
+        return {"self": slf, "levelvec": Seq("list", [S.int("level%d" % c) for c in range(self.dim)])}
+
+    def pre(self, S, env):
+        out = []
+        for c, cont in enumerate(env["self"].fields["refinement"].fields["refinementContainers"].items):
+            out += tiling_pre(cont, "dim%d." % c)
+        return out
+
+    def facts(self, o, d, l_d, P_, Lv, k):
+        """invariant of the selection loop after k intervals (P_, Lv: the point and level lists as symbolic sequences)"""
+        from pyvc import values as Vv
+        st, en = o.fields["start"], o.fields["end"]
+        l1 = o.fields["levels"][1]
+        n = Vv.to_z3(P_.len())
+        p, i = z3.Int("pp"), z3.Int("ii")
+        lastb = z3.If(k == 0, z3.Select(st, 0), z3.Select(en, k - 1))
+        return [("list-sizes", z3.And(n >= 1, n <= k + 1, Vv.to_z3(Lv.len()) == n)),
+                ("starts-at-the-left-domain-end", z3.And(z3.Select(P_.arr, 0) == z3.Select(st, 0), z3.Select(Lv.arr, 0) == z3.Select(o.fields["levels"][0], 0))),
+                ("strictly-ascending", z3.ForAll([p], z3.Implies(z3.And(p >= 0, p < n - 1), z3.Select(P_.arr, p) < z3.Select(P_.arr, p + 1)), patterns=[z3.Select(P_.arr, p)])),
+                ("last-point-not-beyond-the-processed-intervals", z3.Select(P_.arr, n - 1) <= lastb),
+                ("every-point-is-the-right-end-of-an-interval-passing-the-level-test",
+                 z3.ForAll([p], z3.Implies(z3.And(p >= 1, p < n), z3.Exists([i], z3.And(i >= 0, i < k, z3.Select(P_.arr, p) == z3.Select(en, i), included(o, d, i, l_d),
+                                                                                       z3.Select(Lv.arr, p) == z3.Select(l1, i)))), patterns=[z3.Select(P_.arr, p)])),
+                Cl("every-interval-passing-the-level-test-contributes-its-right-end",
+                   z3.ForAll([i], z3.Implies(z3.And(i >= 0, i < k, included(o, d, i, l_d)), z3.Exists([p], z3.And(p >= 1, p < n, z3.Select(P_.arr, p) == z3.Select(en, i)))),
+                             patterns=[z3.Select(en, i)]),
+                   uses=["loop2/inv#every-interval", "loop2/inv#list-sizes", "loop2/inv#structure-untouched"]),
+                ("last-processed-interval-if-included-is-the-last-point", z3.Implies(z3.And(k >= 1, included(o, d, k - 1, l_d)), z3.Select(P_.arr, n - 1) == z3.Select(en, k - 1)))]
+
+    def inv(self, S, env, g):
+        from pyvc import values as Vv
+        old = S.ex.old
+        d = env["d"]
+        cont = old["self"].fields["refinement"].fields["refinementContainers"].items[d]
+        o = cont.fields["refinementObjects"]
+        l_d = old["levelvec"].items[d]
+        P_, Lv = env["points_dim"].to_symbolic(), env["points_level_dim"].to_symbolic()
+        cur = env["self"].fields["refinement"].fields["refinementContainers"].items[d].fields["refinementObjects"]
+        same = [("structure-untouched", z3.And(cur.fields["start"] == o.fields["start"], cur.fields["end"] == o.fields["end"], cur.fields["levels"][1] == o.fields["levels"][1],
+                                               Vv.to_z3(cur.length) == Vv.to_z3(o.length)))]
+        return self.facts(o, d, l_d, P_, Lv, g["k"]) + same
+
+    @property
+    def loops(self):
+        return {2: Loop(inv=lambda S, env, g: self.inv(S, env, g))}
+
+    def post(self, S, old, env, result):
+        from pyvc import values as Vv
+        ok = isinstance(result, Seq) and result.concrete and len(result.items) == 3 and all(isinstance(result.items[q], Seq) and result.items[q].concrete
+                                                                                         and len(result.items[q].items) == self.dim for q in (0, 1))
+        if not ok:
+            return [Cl("returns-point-and-level-lists-per-dimension", False)]
+        out = [Cl("returns-point-and-level-lists-per-dimension", True)]
+        for d in range(self.dim):
+            o = old["self"].fields["refinement"].fields["refinementContainers"].items[d].fields["refinementObjects"]
+            P_, Lv = result.items[0].items[d].to_symbolic(), result.items[1].items[d].to_symbolic()
+            n = Vv.to_z3(P_.len())
+            f = dict(((it.name, it.expr) if isinstance(it, Cl) else (it[0], it[1])) for it in self.facts(o, d, old["levelvec"].items[d], P_, Lv, o.length))
+            out += [Cl("dim%d.strictly-ascending" % d, f["strictly-ascending"], prop=True),
+                    Cl("dim%d.contains-both-domain-end-points" % d, z3.And(z3.Select(P_.arr, 0) == z3.Select(o.fields["start"], 0),
+                                                                         z3.Select(P_.arr, n - 1) == z3.Select(o.fields["end"], o.length - 1)), prop=True),
+                    Cl("dim%d.points-are-exactly-the-interval-ends-passing-the-level-test-of-this-dimension" % d,
+                       z3.And(f["every-point-is-the-right-end-of-an-interval-passing-the-level-test"], f["every-interval-passing-the-level-test-contributes-its-right-end"]), prop=True),
+                    Cl("dim%d.one-level-per-point-and-the-left-end-carries-its-level" % d, z3.And(Vv.to_z3(Lv.len()) == n, f["starts-at-the-left-domain-end"]))]
+        return out
+
+
+CONTRACTS += [GetMaxCoarsening(), GetSubtractionValue(), PointCoords(1), PointCoords(2)]
+ASSUMPTIONS += ["get_point_coord_for_each_dim: dims 1 and 2 (outer loops unrolled), use_local_children True, force_balanced_refinement_tree False; the NodeInfo / children "
+                "bookkeeping is sliced away mechanically (statements that only feed children_indices*); A-SUB for the subtraction value; the refinement containers satisfy "
+                "the C06 structure invariant (ascending tiling, shared end-point levels, level 0 at the domain ends)"]
